@@ -154,7 +154,7 @@ func faultResponder(p *peer, ci, ri int, req *wireMsg, w io.Writer) bool {
 }
 
 type c12Env struct {
-	direct, via, mitm, viaRefused, viaTimeout *fwd
+	direct, via, mitm, viaRefused, viaTimeout, handler *fwd
 	byLog                                     map[string][3]*fwd // --log-http mode -> direct, via, mitm
 	rejMitm                                   *fwd
 	stall                                     map[string]*fwd
@@ -251,6 +251,7 @@ func newC12Env() *c12Env {
 		return f
 	}
 	env.direct = mk(fwdCfg{Name: "fwd", Localhost: "allow"})
+	env.handler = mk(fwdCfg{Name: "fwd", Localhost: "allow", Handler: true})
 	env.via = mk(fwdCfg{Name: "fwd", Localhost: "allow", Upstream: "http://" + addrA})
 	env.mitm = mk(fwdCfg{Name: "fwd", Localhost: "allow", MITM: true, OriginTLSHandshake: 3 * time.Second})
 	env.byLog = map[string][3]*fwd{}
@@ -270,6 +271,7 @@ func (env *c12Env) close() {
 	env.mitm.stop()
 	env.viaRefused.stop()
 	env.viaTimeout.stop()
+	env.handler.stop()
 	for _, fs := range env.byLog {
 		for _, f := range fs {
 			f.stop()
@@ -420,6 +422,9 @@ func (env *c12Env) faultCase(c c12Case, k int, rejf *fwd) map[string]any {
 			body = "\r\n"
 		}
 		req = fmt.Sprintf("%s http://%s%s HTTP/1.1\r\nHost: %s\r\n%s", method, host, path, host, body)
+	case "GEThandler":
+		f = env.handler
+		req = fmt.Sprintf("GET http://%s%s HTTP/1.1\r\nHost: %s\r\n\r\n", host, path, host)
 	case "GETviaProxy":
 		f = env.via
 		if c.F == "dial_refused" {
